@@ -520,6 +520,8 @@ def check_det(case, M, rng, g, res):
         except Exception as e:  # noqa
             pg = None
             outcome = type(e).__name__
+        if outcome != "ok" and all(freeze(t) in {freeze(x) for x in terms} for t in samples):
+            fail("oracle", "pcfg_from_samples raises on samples drawn from the language", outcome)
         ans = M.ask([Sym("c04.samples"), gw, [term_wire(t) for t in samples]])
         if ans[0] == "exn":
             if outcome != str(ans[1]):
@@ -911,4 +913,10 @@ def corpus():
         dict(base, kind="cfg", prims=plus, request=["->", "int", "int"], max_depth=3, constraints=[], weights="dyadic"),
         dict(base, kind="cfg", prims=plus, request=["->", "int", "int"], max_depth=3, constraints=[], weights="samples", bad_samples=True),
         dict(base, kind="size", prims=plus, request=["->", "int", "int"], max_depth=3, constraints=[], weights="uniform", max_size=5),
+        # C04-F5: TTCFG.programs() with a rule of three arguments (16 reported, 52 programs)
+        dict(base, kind="size", prims=[["f0", ["->", "bool", ["->", "bool", ["->", "bool", "bool"]]]]], request=["->", "bool", ["->", "bool", "bool"]],
+             max_depth=1, constraints=[], weights="dyadic", max_size=4, min_var=0),
+        # several alternatives per rule and several start symbols
+        dict(base, kind="dfta", prims=plus + [["f1", ["->", "int", "int"]]], request=["->", "int", "int"], max_depth=4,
+             constraints=["(f0 ^f0,f1 _)", "(f1 ^f1)"], weights="hand"),
     ]
